@@ -4,6 +4,7 @@ import UxVerif.Model.Proto
 import UxVerif.Model.Edges
 import UxVerif.Lemmas.SortUniq
 import UxVerif.Lemmas.Rows
+import UxVerif.Lemmas.Handshake
 import UxVerif.Props.C02
 import UxVerif.Model.Incidence
 import UxVerif.Lemmas.Keyed
